@@ -131,7 +131,20 @@ def solve_one(job):
         res, model, t, reason = _run_z3(smt2, names, z3_ms)
         out = {'idx': idx, 'z3': res, 'z3_s': round(t + t0, 3), 'model': model, 'reason': reason, 'cvc5': None, 'cvc5_s': 0.0}
         if res == 'unknown' and r0 == 'sat':
-            # candidate counterexample found without the lemma axioms; only a native replay can confirm it
+            # a model of the query WITHOUT the lemma axioms is only a candidate: before it is handed to the native replay the full
+            # query gets cvc5 and then z3 again with four times the budget (unsat from either settles it)
+            if cvc5_ms:
+                r2, t2, _ = _run_cvc5(smt2, cvc5_ms)
+                out['cvc5'], out['cvc5_s'] = r2, round(t2, 3)
+                if r2 == 'unsat':
+                    out['z3'] = 'unknown'
+                    return out
+            if not job_retry(job):
+                res4, model4, t4, reason4 = _run_z3(smt2, names, z3_ms * 4)
+                out['z3_s'] = round(out['z3_s'] + t4, 3)
+                if res4 in ('unsat', 'sat'):
+                    out['z3'], out['model'], out['reason'] = res4, model4, reason4
+                    return out
             out['z3'] = 'sat'
             out['model'] = m0
             out['weak'] = True
